@@ -329,6 +329,15 @@ func rulesC02(p *Prog, r *Report) {
 		fb := newBoundsProver(p, sharedEngineLite(p)).forFn(f)
 		for _, b := range f.Blocks {
 			for _, in := range b.Instrs {
+				if call, ok := in.(*ssa.Call); ok && call.Call.StaticCallee() != nil {
+					switch call.Call.StaticCallee().String() {
+					case "strings.CutSuffix", "strings.TrimSuffix":
+						if c, isC := constString(call.Call.Args[1]); isC {
+							nStrip++
+							r.OK("M5", fmt.Sprintf("%s|strip %q", p.shortKey(f), c), p.pos(call.Pos()), "library strip removes exactly the suffix", call.Call.StaticCallee().Name(), true)
+						}
+					}
+				}
 				sl, ok := in.(*ssa.Slice)
 				if !ok || sl.High == nil || !isStringType(sl.X.Type()) {
 					continue
@@ -369,30 +378,10 @@ func rulesC02(p *Prog, r *Report) {
 	}
 	// '-or-later' token ⇒ hasPlus
 	if pl := p.Func(p.ExpPkg, "(*tokenStream).parseLicense"); pl != nil {
-		fb := newBoundsProver(p, sharedEngineLite(p)).forFn(pl)
 		found := false
-		for _, b := range pl.Blocks {
-			for _, in := range b.Instrs {
-				st, ok := in.(*ssa.Store)
-				if !ok {
-					continue
-				}
-				fa, ok := st.Addr.(*ssa.FieldAddr)
-				if !ok || fieldOf(fa).Field != "hasPlus" {
-					continue
-				}
-				c, isC := st.Val.(*ssa.Const)
-				if !isC || c.Value == nil || c.Value.String() != "true" {
-					continue
-				}
-				for cf := range fb.facts[b.Index] {
-					call, ok := cf.c.(*ssa.Call)
-					if ok && cf.pol && call.Call.StaticCallee() != nil && call.Call.StaticCallee().String() == "strings.HasSuffix" {
-						if s, _ := constString(call.Call.Args[1]); s == "-or-later" {
-							found = true
-						}
-					}
-				}
+		for _, sfx := range plusSuffixes(p, pl) {
+			if sfx == "-or-later" {
+				found = true
 			}
 		}
 		if found {
